@@ -28,7 +28,7 @@ type c19Case struct {
 	Lazy bool `json:"lazy"`
 }
 
-var c19Kinds = []string{"honest", "honest", "honest", "other-signer", "other-signer-with-key", "claims-other", "tampered-body", "tampered-sig", "unsigned", "other-context", "empty-body"}
+var c19Kinds = []string{"honest", "honest", "honest", "other-signer", "other-signer-with-key", "claims-other", "tampered-body", "tampered-sig", "unsigned", "other-context", "other-context-verified", "empty-body"}
 
 func genC19(t *rapid.T) c19Case {
 	n := rapid.IntRange(1, 10).Draw(t, "n")
